@@ -379,6 +379,21 @@ bus_driver_send_service_acquired (DBusConnection *connection,
     }
 }
 
+#ifdef DBUS_VERIF_HOOKS
+/* verification hook: one-shot preset of the unique-name counters, to reach
+ * the roll-over of the minor number without 2^31 connections */
+static int verif_preset_major = -1;
+static int verif_preset_minor = -1;
+
+void
+_bus_verif_preset_unique_name_counter (int major,
+                                       int minor)
+{
+  verif_preset_major = major;
+  verif_preset_minor = minor;
+}
+#endif
+
 static dbus_bool_t
 create_unique_client_name (BusRegistry *registry,
                            DBusString  *str)
@@ -395,6 +410,15 @@ create_unique_client_name (BusRegistry *registry,
   int len;
 
   len = _dbus_string_get_length (str);
+
+#ifdef DBUS_VERIF_HOOKS
+  if (verif_preset_major >= 0)
+    {
+      next_major_number = verif_preset_major;
+      next_minor_number = verif_preset_minor;
+      verif_preset_major = -1;
+    }
+#endif
 
   while (TRUE)
     {
